@@ -69,6 +69,17 @@ extern "C" int h_sys_stepping(void* m, unsigned adaptive, unsigned nsteps, unsig
 #endif
   return 0;
 }
+namespace squids{ int RHS(double,const double*,double*,void*); }   // the library's ODE callback (declared only as a friend in the class)
+// direct calls of the ODE right-hand side as a driver would make them: same output array, different input arrays; then a fresh output array.
+// res[0] = max |f(y2 into the re-used output) - f(y2 into a fresh output)|, res[1] = max |f(y1) - f(y2)| (must be > 0 for the probe to be meaningful)
+extern "C" int h_sys_rhs_probe(void* m, unsigned n, const double* y1, const double* y2, double t, double* res){
+  std::vector<double> a(y1,y1+n), b(y2,y2+n), f(n,0.), g(n,0.), f1(n,0.);
+  int rc=squids::RHS(t,a.data(),f.data(),m); f1=f;
+  rc|=squids::RHS(t,b.data(),f.data(),m);
+  rc|=squids::RHS(t,b.data(),g.data(),m);
+  double d0=0,d1=0; for(unsigned k=0;k<n;k++){ double u=f[k]-g[k]; if(u<0)u=-u; if(u>d0)d0=u; double v=f1[k]-g[k]; if(v<0)v=-v; if(v>d1)d1=v; }
+  res[0]=d0; res[1]=d1; return rc;
+}
 // step-size and error-control parameters (each a different value so that a swapped argument is visible)
 extern "C" int h_sys_control(void* m, double h, double hmin, double hmax, double eabs, double erel){
   Sys* s=static_cast<Sys*>(m);
